@@ -112,8 +112,15 @@ def diagramOf (j : Json) : Except String Diagram := do
     pure ({ hidden := ← getBool e "hidden", obj := ← objOf (← e.getObjVal? "obj") } : Elem)
   pure { cls := optStr j "dc", viewport := vp, elems := elems }
 
+/-- does every visible element satisfy the hypotheses of `every_styled_element_draws`? -/
+def hypothesesHold (d : Diagram) : Bool :=
+  (d.elems.filter (fun e => !e.hidden)).all fun e =>
+    e.obj.style.all (overridePlainOK T.markers (isEdgeType e.obj.kind)) &&
+    (e.obj.style.isEmpty || !isInfixOfB "symbol".toList ((styleType e.obj.kind ++ '.' :: e.obj.cls).map lowerChar))
+
 def handle (op : String) (j : Json) : Except String Json := do
   match op with
+  | "svg.hyp" => pure (Json.bool (hypothesesHold (← diagramOf j)))
   | "svg.renderS" =>
     match renderS T (← diagramOf j) with
     | .ok doc => pure (Json.mkObj [("ok", Json.mkObj [
